@@ -345,6 +345,15 @@ _RULE_EXTRA = {
     "C19": "; keyless tables over a tiny alphabet with the empty cell; the two outputs must agree also when keys repeat; on 1 in 12 case indices also 1..10 rows with 1..3 cells of 65533..65536 bytes in removed / kept / key columns (tag limit-cell); on 2 in 12 also one sorter used for 2..3 tables of different shapes with Reset() in between (op sort-reuse), the earlier uses abandoned after AddRow / read under a cancelled context / read to the end: every use read to the end must satisfy the same clauses for its own table and agree with the model started from the empty state, and after Close() no spill file of any use may be left",
     "C20": "; 1 in 8: 256..335 hashes sharing a first byte added in one batch",
 }
+_RULE_EXTRA["C01"] += ("; on 2 in 12 case indices the same table once more with a spilling run size and one spill file cut short in the middle of a field "
+                       "between the sort and the merge (from the Close of the CSV reader; op ingest-torn-spill): refused, or stored completely; history steps run with -n 1..5 in turn")
+_RULE_EXTRA["C02"] = ("; a sixth configuration with 1..5 workers in turn by the case index, history steps with -n 1..5 in turn; on 1 in 6 case indices also a table of "
+                      "fixed-width records ingested in a child process whose RLIMIT_FSIZE cuts every spill file at or near a row boundary (op ids-spill-write-fault): "
+                      "the id of the in-memory ingest, or an error")
+_RULE_EXTRA["C19"] += ("; on 4 in 12 case indices the same table also loaded from a CSV file by SortFile with the key given by column names (tag sortfile; the re-use "
+                       "cases of index 9 too); on 4 in 12 also loaded while, for a stretch of rows, no spill file can be created and the caller carries on after the "
+                       "AddRow errors (op sort-fault): every row whose AddRow returned nil comes out once per key in key order in both outputs, and the fault model "
+                       "(Model/SorterFault.lean) agrees on which calls fail, on the spills and on the rows")
 for _k, _v in _RULE_EXTRA.items():
     PROPS[_k]["rule"] = PROPS[_k]["rule"] + _v
 
